@@ -18,7 +18,7 @@ _radius = st.one_of(
     st.integers(1, 5).map(float),
 )
 _coord = st.one_of(st.floats(-1e3, 1e3, **finite).map(gen.r6), st.integers(-3, 3).map(float))
-_width = st.floats(-2, 1, **finite).map(lambda e: gen.r6(10.0**e))
+_width = st.one_of(st.floats(-2, 1, **finite).map(lambda e: gen.r6(10.0**e)), st.floats(-2, 1, **finite).map(lambda e: gen.r6(10.0**e)), st.just(0.0))  # incl. the sharp interface 0
 
 
 @st.composite
@@ -54,6 +54,8 @@ def specs(draw):
 def rel_close(a, b, rtol, scale=None):
     a = np.asarray(a, float)
     b = np.asarray(b, float)
+    if not (np.all(np.isfinite(a)) and np.all(np.isfinite(b))):
+        return bool(np.array_equal(a, b, equal_nan=True))  # non-finite values only match identical non-finite values
     s = np.maximum(np.abs(a), np.abs(b)) if scale is None else scale
     return bool(np.all(np.abs(a - b) <= rtol * s + 1e-300))
 
@@ -62,7 +64,7 @@ class C11(Property):
     id = "C11"
     rule = (
         "Hypothesis draws a class (Spherical/Diffuse), dim 1-3, 2-8 droplets (positions +-1e3 incl. small integers, radii 10^U(-3,3), "
-        "0, near-equal and integer radii, positive widths) and two random binary merge trees. The first pair is merged through all three "
+        "0, near-equal and integer radii, widths positive or exactly 0) and two random binary merge trees. The first pair is merged through all three "
         "code paths (merge(inplace=False), merge(inplace=True), numba.njit(cls._make_merge_data())) and compared with the textbook "
         "volume sum / volume-weighted centre / mean width, with operand order swapped, and for operand mutation; both merge trees must "
         "give the same total volume and centre of mass as the oracle. Non-trivial = radii of the first pair differ by > 1 %, or a zero "
